@@ -18,12 +18,13 @@ import (
 // under test are not registered: they run until they block on a pipe or on a
 // simulator object, which quiescence detects.
 type K1 struct {
-	env     *Env
-	pending []*Op
-	live    int
-	relSeq  int
-	start   time.Time
-	wake    chan struct{} // poked whenever an operation parks or a task ends
+	env        *Env
+	pending    []*Op
+	live       int
+	relSeq     int
+	start      time.Time
+	wake       chan struct{} // poked whenever an operation parks or a task ends
+	activeTime time.Duration
 
 	Steps    int
 	MaxSteps int
@@ -64,6 +65,9 @@ func RunBubble(t *testing.T, env *Env, body func(k *K1)) (deadlock string) {
 		env.K1 = k
 		body(k)
 		env.SimTime = time.Since(k.start)
+		if k.activeTime > 0 {
+			env.SimTime = k.activeTime // without the settling phase (which lets every timer fire: days of fake time)
+		}
 	})
 	return ""
 }
@@ -268,6 +272,9 @@ func (k *K1) AddInstant(d time.Duration) {
 // SettleAll releases everything that is still parked with benign decisions,
 // lets every timer fire, and waits for quiescence.
 func (k *K1) SettleAll() {
+	if k.activeTime == 0 {
+		k.activeTime = k.Now() + 1
+	}
 	k.Settle = true
 	save := k.env.Tape.Benign
 	k.env.Tape.Benign = true
